@@ -60,6 +60,9 @@ func HandWritten() []*Case {
 		mk("h42", "all-union-fields-ignored", "ph42", "type Payload interface{ isPayload() }\ntype Text struct{ Value string `json:\"value\"` }\nfunc (Text) isPayload() {}\ntype Number struct{ N int }\nfunc (Number) isPayload() {}\ntype Audit struct {\n\tId int\n\tPayload Payload `json:\"payload\" gomacro:\"ignore\"`\n}\ntype Mixed struct {\n\tA Payload `gomacro:\"ignore\"`\n\tB Payload\n}\ntype Event struct{ P Payload }\n", ""),
 		mk("h43", "null-struct-over-named-time", "ph43", "type MyDate time.Time\nfunc (d MyDate) MarshalJSON() ([]byte, error) { return time.Time(d).MarshalJSON() }\nfunc (d *MyDate) UnmarshalJSON(b []byte) error { return (*time.Time)(d).UnmarshalJSON(b) }\ntype Stamp time.Time\nfunc (d Stamp) MarshalJSON() ([]byte, error) { return time.Time(d).MarshalJSON() }\nfunc (d *Stamp) UnmarshalJSON(b []byte) error { return (*time.Time)(d).UnmarshalJSON(b) }\ntype OptDate struct {\n\tValid bool\n\tDate MyDate\n}\ntype OptStamp struct {\n\tStamp Stamp\n\tValid bool\n}\ntype T struct {\n\tId int64\n\tD OptDate\n\tS OptStamp\n}\n", ""),
 		mk("h46", "omitempty-fields-in-a-json-column", "ph46", "type Mode string\nconst (\n\tAuto Mode = \"auto\"\n\tManual Mode = \"manual\"\n)\ntype Rank int\nconst (\n\tLow Rank = iota + 1\n\tHigh\n)\ntype Settings struct {\n\tName string `json:\"name,omitempty\"`\n\tLevel int `json:\"level,omitempty\"`\n\tRatio float64 `json:\",omitempty\"`\n\tOn bool `json:\"on,omitempty\"`\n\tTags []string `json:\"tags,omitempty\"`\n\tAttrs map[string]int `json:\"attrs,omitempty\"`\n\tMode Mode `json:\"mode\"`\n\tRank Rank\n\tKept string `json:\"kept\"`\n}\ntype T struct {\n\tId int64\n\tS Settings\n\tL []Settings\n\tM map[string]Settings\n}\n", ""),
+		mk("h48", "same-directive-text-on-two-tables", "ph48", "// gomacro:SQL ADD UNIQUE(Name)\n// gomacro:SQL ADD CHECK (Rank > 0)\ntype Author struct {\n\tId int64\n\tName string\n\tRank int\n}\n\n// gomacro:SQL ADD UNIQUE(Name)\ntype Publisher struct {\n\tId int64\n\tName string\n}\n\n// gomacro:SQL ADD UNIQUE(Name)\n// gomacro:SQL ADD CHECK (Rank > 0)\ntype Shelf struct {\n\tId int64\n\tName string\n\tRank int\n}\n", ""),
+		mk("h49", "embedded-struct-with-a-tag-without-name", "ph49", "type Base struct {\n\tA int\n\tB string `json:\"b\"`\n}\ntype Meta struct {\n\tKind string `json:\"kind\"`\n\tVersion int\n}\ntype Doc struct {\n\tBase `json:\",omitempty\"`\n\tMeta `json:\",inline\"`\n\tTitle string\n}\ntype Note struct {\n\tMeta `json:\"\"`\n\tText string\n}\n", ""),
+		mk("h50", "embedded-struct-with-a-named-tag", "ph50", "type Base struct {\n\tA int\n\tB string `json:\"b\"`\n}\ntype Hidden struct{ H int }\ntype Doc struct {\n\tBase `json:\"base\"`\n\tTitle string\n}\ntype Doc2 struct {\n\tHidden `json:\"-\"`\n\tTitle string\n}\n", ""),
 		mk("h44", "json-column-of-recursive-named-container", "ph44", "type Tree []Tree\ntype Dict map[string]Dict\ntype T struct {\n\tId int64\n\tTree Tree\n\tDict Dict\n}\n", ""),
 		mk("h45", "enum-constants-over-two-files-with-equal-values", "ph45", "type Color int\nconst (\n\tRed Color = iota\n\tGreen\n\tBlue\n)\ntype Paint struct {\n\tC Color\n\tL Level\n}\n", "const defaultColor = Green\nconst fallbackColor Color = Red\ntype Level uint8\nconst (\n\tLow Level = iota\n\tHigh\n)\nconst levelUnset Level = 255\nconst levelDefault = Low\n"+bigPadding()),
 		withSub(mk("h40", "embedded-non-struct-fields", "ph40", "type Kind int\nconst (\n\tPlain Kind = iota + 1\n\tFancy\n)\ntype Level string\nconst (\n\tLow Level = \"low\"\n\tHigh Level = \"high\"\n)\ntype Tags []string\ntype Shape struct {\n\tKind\n\tLevel\n\tTags\n\tName string\n\tAt geo.Point\n}\n", ""), "geo", "type Geometry interface{ isGeometry() }\ntype Point struct{ X, Y float64 }\nfunc (Point) isGeometry() {}\ntype Line struct{ A, B Point }\nfunc (Line) isGeometry() {}\n"),
@@ -127,7 +130,17 @@ func SameNamedPackages() []*Case {
 	d.Main.Imports["kinds"] = d.PkgPath(kinds)
 	d.Main.Imports["extra"] = d.PkgPath(extra)
 	d.Main.Files = []*File{{Name: "defs.go", Decls: []*Decl{{Kind: "raw", Name: "T", Text: "type T struct {\n\tK kinds.Kind\n\tE extra.E\n}\n"}}}}
-	return []*Case{c, d}
+	// the same with the home package of the enum sorting BEFORE the package that declares a constant of its type
+	d2 := &Case{ID: "diamond2", Feat: []string{"hand:import-diamond-foreign-const-home-first"}}
+	d2.Main = &Pkg{Name: "pdiamond2", Imports: map[string]string{}}
+	kinds2 := &Pkg{Dir: "kinds", Name: "kinds", Files: []*File{{Name: "k.go", Decls: []*Decl{{Kind: "raw", Name: "k", Text: "type Kind uint8\nconst (\n\tFood Kind = iota\n\tDrink\n\tOther\n)\n"}}}}}
+	settings := &Pkg{Dir: "settings", Name: "settings", Imports: map[string]string{}, Files: []*File{{Name: "e.go", Decls: []*Decl{{Kind: "raw", Name: "e", Text: "const DefaultKind = kinds.Drink\ntype Prefs struct{ K kinds.Kind }\n"}}}}}
+	d2.Subs = []*Pkg{kinds2, settings}
+	settings.Imports["kinds"] = d2.PkgPath(kinds2)
+	d2.Main.Imports["kinds"] = d2.PkgPath(kinds2)
+	d2.Main.Imports["settings"] = d2.PkgPath(settings)
+	d2.Main.Files = []*File{{Name: "defs.go", Decls: []*Decl{{Kind: "raw", Name: "T", Text: "type T struct {\n\tK kinds.Kind\n\tP settings.Prefs\n}\n"}}}}
+	return []*Case{c, d, d2}
 }
 
 // ManyImports returns programs whose types come from several packages (so that the import lists
